@@ -283,6 +283,24 @@ def execute_solver(ctx: RunCtx) -> None:
     inj = Injector(ctx, mp["R"], mp["J"], faults, mp["m"])
     factory = _mk_armijo(alpha_reduction=cfg["alpha_red"], min_alpha=cfg["min_alpha"], armijo_c=cfg["armijo_c"]) if cfg["armijo"] else _mk_plain()
     be = _NB(stepper_factory=factory)
+    # the backend and its stepper factory are long-lived in real use (one pipeline per orbit): this run may be the
+    # second problem they solve, after one with another step cap / norm / tolerance (drawn last: earlier replays stay aligned)
+    if ds.flag("prior_run_on_same_backend", 0.3):
+        pm = ds.pick([None, 5.0, 1e-3, 0.3, 1e-2], "prior.max_delta")
+        pinf = ds.flag("prior.norm.inf", 0.5)
+        ptol = 10.0 ** (-ds.pick([6, 12, 3], "prior.tol.exp"))
+        pn = 1 + ds.choose(3, "prior.n")
+        pA = 2.0 * np.eye(pn) + 0.25 * np.ones((pn, pn))
+        pb = pA @ np.full(pn, 0.7)
+        try:
+            be.run(request=_CI(initial_guess=np.full(pn, ds.pick([3.0, -40.0, 0.7], "prior.x0")), residual_fn=lambda x: pA @ np.asarray(x, float) - pb,
+                               jacobian_fn=(lambda x: pA.copy()) if ds.flag("prior.jacobian.analytic", 0.5) else None,
+                               norm_fn=(lambda r: float(np.linalg.norm(r, ord=np.inf))) if pinf else None,
+                               max_attempts=ds.pick([25, 1], "prior.max_attempts"), tol=ptol, max_delta=pm, fd_step=1e-8))
+            ctx.probe("prior_run_converged")
+        except Exception:
+            ctx.probe("prior_run_raised")
+        cfg["prior_run"] = {"max_delta": pm, "inf_norm": pinf, "tol": ptol, "n": pn}
     iterates = instrument(be, inj, cfg["max_attempts"])
     req = _CI(initial_guess=x0.copy(), residual_fn=inj.residual, jacobian_fn=(inj.jacobian if cfg["analytic_jac"] else None),
               norm_fn=(norm if cfg["inf_norm"] else None), max_attempts=cfg["max_attempts"], tol=cfg["tol"], max_delta=cfg["max_delta"], fd_step=1e-8)
